@@ -10,7 +10,8 @@ Driver for C20.  A case is a history of ConfigMap events on one SLOCfg cache, wi
                                     append a node entry; selkind 0 nil selector, 1 invalid, 2 requirements
   ne <s> <v> <k>*                   one flattened entry of the strategy of the last node entry of section s
   end                               apply the event (syncConfig)
-  node <nl> (<k> <v>)*              probe: getNodeSLOSpec for a node with these labels
+  node <bw> <nl> (<k> <v>)*         probe: getNodeSLOSpec for a node with these labels; bw = bandwidth annotation
+                                    (-1 none, -2 unparsable, else its value)
 Output per probe: `o <s> <v> <k>*` for every entry of the five delivered sections, sorted by path.
 -/
 namespace KoordVerif.C20
@@ -142,15 +143,18 @@ def stepLine (s : DState) (line : String) : DState :=
         applyEvent s (some { thr := g 0, qos := g 1, burst := g 2, sys := g 3, host := g 4 })
       else s.bad
     | none => s.bad
-  | "node" :: nl :: rest =>
-    match nat? nl, nats? rest, s.pend with
-    | some nl, some kv, none =>
-      if kv.length ≠ 2 * nl then s.bad else
+  | "node" :: bw :: nl :: rest =>
+    match int? bw, nat? nl, nats? rest, s.pend with
+    | some bw, some nl, some kv, none =>
+      if kv.length ≠ 2 * nl || bw < -2 then s.bad else
       let ls : Labels := (chunks 2 kv).filterMap fun | [k, v] => some (k, v) | _ => none
-      let secs := nodeSpec s.cur ls
-      let lines := (secs.zipIdx.map fun (t, i) => showFlat i t).flatten
+      let bw' : Option (Option Int) := if bw = -1 then none else if bw = -2 then some none else some (some bw)
+      let secs := nodeSpecBw s.cur ls bw'
+      let lines := (secs.zipIdx.map fun (t, i) => match t with
+        | some t => showFlat i t
+        | none => [s!"o {i} nil"]).flatten
       { s with cfg := some s.cur, out := s.out ++ lines.toArray }
-    | _, _, _ => s.bad
+    | _, _, _, _ => s.bad
   | _ => s.bad
 
 def runCase (lines : List String) : List String := (lines.foldl stepLine {}).out.toList
